@@ -1171,3 +1171,75 @@ func init() {
 		arrayFillRule(c, r, "C14.12", func(n string) bool { return strings.HasPrefix(n, "structures.") }, 2)
 	})
 }
+
+// ---- an in-place write-back writes every part (C14.13 / C15.11) ----
+//
+// WriteAt of a loaded structure writes each of its parts (leaf and header of the name index; header and direct block of the heap)
+// through a method of the same type (encode*/write*At). Every return of success lies behind each of those calls - or behind the
+// test of a boolean "modified" flag, which C14.9 ties to every content-changing method. A part that is skipped on some other
+// condition (the record count did not change) stays as it was in the file while the methods of the type report success.
+func writeBackCompleteRule(c *Ctx, r *Result, rule, typeKey string, floor int) {
+	w := c.FnOpt(typeKey + ".WriteAt")
+	if w == nil || w.Blocks == nil {
+		r.Shortfall(c, rule, rule+": "+typeKey+".WriteAt not found")
+		return
+	}
+	parts := map[string][]ssa.Instruction{}
+	for _, site := range callsIn(w) {
+		name := c.calleeName(site)
+		if !strings.HasPrefix(name, typeKey+".") {
+			continue
+		}
+		m := lastSeg(name)
+		if strings.HasPrefix(m, "encode") || (strings.HasPrefix(m, "write") && strings.HasSuffix(m, "At")) {
+			parts[name] = append(parts[name], site.(ssa.Instruction))
+		}
+	}
+	// returns of success that are the skip arm of a boolean flag test
+	flagSkip := map[*ssa.BasicBlock]bool{}
+	for _, b := range w.Blocks {
+		ifi, ok := b.Instrs[len(b.Instrs)-1].(*ssa.If)
+		if !ok {
+			continue
+		}
+		cond := ifi.Cond
+		if u, isU := cond.(*ssa.UnOp); isU && u.Op == token.NOT {
+			cond = u.X
+		}
+		if key, _ := fieldLoadKey(cond); strings.HasPrefix(key, typeKey+".") {
+			if bt, isB := cond.Type().Underlying().(*types.Basic); isB && bt.Kind() == types.Bool {
+				flagSkip[b.Succs[0]], flagSkip[b.Succs[1]] = true, true
+			}
+		}
+	}
+	n := 0
+	for _, name := range sortedKeys(parts) {
+		for _, b := range w.Blocks {
+			ret, isRet := b.Instrs[len(b.Instrs)-1].(*ssa.Return)
+			if !isRet || !isSuccessReturn(ret) || flagSkip[b] {
+				continue
+			}
+			n++
+			ok := mustPrecede(ret, func(in ssa.Instruction) bool {
+				for _, p := range parts[name] {
+					if in == p {
+						return true
+					}
+				}
+				return false
+			})
+			r.Check(ok, rule, c.Name(w)+"#"+lastSeg(name)+"#on-every-successful-path", c.InstrPos(parts[name][0]), "every return of success lies behind "+lastSeg(name)+" (a part that is skipped on a condition other than a 'modified' flag keeps its old bytes in the file)")
+		}
+	}
+	if n < floor {
+		r.Shortfall(c, rule, fmt.Sprintf("%s: only %d part/return pairs in %s.WriteAt", rule, n, typeKey))
+	}
+}
+
+func init() {
+	txt := "an in-place write-back writes every part: each return of success of WriteAt lies behind each encode*/write*At call of the type (leaf and header; header and direct block), or behind the test of a boolean 'modified' flag; a part skipped on another condition - the record count has not changed since loading - leaves the old bytes in the file although an update, or a delete followed by an insert, changed the records"
+	registry["C14"].Meta.Rules["C14.13"] = txt
+	registry["C14"].Rules = append(registry["C14"].Rules, func(c *Ctx, r *Result) { writeBackCompleteRule(c, r, "C14.13", "structures.WritableBTreeV2", 2) })
+	registry["C15"].Meta.Rules["C15.11"] = txt + " (shared with C14.13)"
+	registry["C15"].Rules = append(registry["C15"].Rules, func(c *Ctx, r *Result) { writeBackCompleteRule(c, r, "C15.11", "structures.WritableFractalHeap", 2) })
+}
